@@ -107,7 +107,7 @@ class Post(Base):
     author_id = sa.Column(sa.ForeignKey("author.id"))
     author = relationship("Author", back_populates="posts")
     home_id = sa.Column(sa.ForeignKey("country.id"), nullable=False)
-    home = relationship("Country")
+    home = relationship("Country", lazy="joined")      # mapper-level eager loading (joins an anonymous alias)
     comments = relationship("Comment", back_populates="post")
     tags = relationship("Tag", secondary=post_tags, back_populates="posts")
     labels = relationship("Tag", secondary=post_labels)
